@@ -204,6 +204,14 @@ def _is_added_window(ctx, f, cfg, lst: str):
     if len(defs) != 1:
         return False, "%d defining assignments" % len(defs)
     v = defs[0][1]
+    # a plain copy of another local (helper results handed over): judge that local
+    for _ in range(3):
+        if isinstance(v, ast.Name):
+            d2 = [(st2, v2) for st2, v2, i2 in assignments_to(f, v.id) if i2 is None]
+            if len(d2) == 1:
+                v = d2[0][1]
+                continue
+        break
     if not (isinstance(v, ast.Subscript) and isinstance(v.slice, ast.Slice) and v.slice.upper is None and isinstance(v.value, ast.Name)):
         return False, "not a tail slice of the side's component list"
     X = v.value.id
